@@ -2,10 +2,11 @@
    bnum integers and primitive integers).  Do not edit.  Proofs/ConvGenTie*.v prove each function equal to the hand-written model.
    pb / ps = BITS / signedness of the primitive type the macro is instantiated at (instantiation lists checked by the translator).
    Vocabulary: Model/Imp.v (control flow), Model/ImpConv.v (bit patterns of primitive integers), Prim.v, Model/LoopPrims.v;
-   by qualified name from the hand model: Cast.p_of_bits (pattern -> value), Convert.result, Core.is_negative. *)
+   by qualified name from the hand model: Cast.p_of_bits (pattern -> value), Convert.result, Core.is_negative / bitnot, Cast.from_bits,
+   Convert.from_digits, NumConv.uN_try_from_iN, and the callees tied elsewhere: Convert.U_from_uint (from_uint!), Cast.U_from_int (as_buint!). *)
 From Bnum Require Import Base Prim.
 From Bnum.Model Require Import DigitPrims LoopPrims Core Imp ImpConv.
-From Bnum.Model Require Cast Convert.
+From Bnum.Model Require Cast Convert NumConv.
 From Bnum.Generated Require Import DigitGen.
 
 Module ConvGen.
@@ -485,6 +486,11 @@ Definition bint_from_uint (dbg : bool) (w N : Z) (fuel : nat) (pb : Z) (int : Z)
   let out := (Cast.from_bits t1') in
   Done out.
 
+(* src/bint/cast.rs: macro as_bint!, fn cast_from *)
+Definition bint_from_prim (w N : Z) (fuel : nat) (pb : Z) (from : Z) : res (list Z) :=
+  t1' <- of_outcome (Cast.U_from_int pb w (Z.to_nat N) from) ;;
+  Done (Cast.from_bits t1').
+
 (* src/buint/convert.rs: macro try_from_iint!, fn try_from *)
 Definition try_from_iint (dbg : bool) (w N : Z) (fuel : nat) (pb : Z) (int : Z) : res (Convert.result (list Z)) :=
   if (int <? 0) then (
@@ -553,6 +559,32 @@ Definition U_from_u128 (w N : Z) (fuel : nat) (int : Z) : res (option (list Z)) 
   | Exited (out, i) =>
       Done (Some out)
   | Returned t3' => Done t3'
+  end.
+
+(* src/buint/numtraits.rs: fn from_i64 *)
+Definition U_from_i64 (w N : Z) (fuel : nat) (int : Z) : res (option (list Z)) :=
+  let pb := 64 in
+  match (NumConv.uN_try_from_iN int) with
+  | Convert.Ok int'1 => (
+      t1' <- U_from_u64 w N fuel int'1 ;;
+      Done t1'
+    )
+  | _ => (
+      Done None
+    )
+  end.
+
+(* src/buint/numtraits.rs: fn from_i128 *)
+Definition U_from_i128 (w N : Z) (fuel : nat) (n : Z) : res (option (list Z)) :=
+  let pb := 128 in
+  match (NumConv.uN_try_from_iN n) with
+  | Convert.Ok n'1 => (
+      t1' <- U_from_u128 w N fuel n'1 ;;
+      Done t1'
+    )
+  | _ => (
+      Done None
+    )
   end.
 
 (* src/bint/numtraits.rs: macro from_uint!, fn $name *)
